@@ -44,6 +44,50 @@ def fingerprint(repo=None):
     return out
 
 
+def spans(repo=None):
+    """file -> list of (qualified name, first line, last line) of every function / method"""
+    repo = repo or REPO
+    out = {}
+    for path in sorted(glob.glob(os.path.join(repo, "gaussian_toolbox", "**", "*.py"), recursive=True)):
+        rel = os.path.relpath(path, repo)
+        try:
+            with warnings.catch_warnings():
+                warnings.simplefilter("ignore")
+                tree = ast.parse(open(path).read())
+        except SyntaxError:
+            continue
+        lst = []
+        def visit(node, prefix):
+            for ch in ast.iter_child_nodes(node):
+                if isinstance(ch, ast.ClassDef):
+                    visit(ch, prefix + ch.name + ".")
+                elif isinstance(ch, (ast.FunctionDef, ast.AsyncFunctionDef)):
+                    body = [b for b in ch.body if not (isinstance(b, ast.Expr) and isinstance(getattr(b, "value", None), ast.Constant) and isinstance(b.value.value, str))]
+                    if body:
+                        lst.append((prefix + ch.name, body[0].lineno, max(getattr(b, "end_lineno", b.lineno) for b in body)))
+        visit(tree, "")
+        out[rel] = lst
+    return out
+
+
+def exercised(cov, repo=None):
+    """from a coverage.Coverage object: file::function -> fraction of its executable body lines that ran"""
+    repo = repo or REPO
+    res = {}
+    for rel, lst in spans(repo).items():
+        path = os.path.join(repo, rel)
+        try:
+            _, stmts, _, missing, _ = cov.analysis2(path)
+        except Exception:
+            continue
+        stmts = set(stmts); missing = set(missing)
+        for name, a, b in lst:
+            st = [l for l in stmts if a <= l <= b]
+            if st:
+                res["%s::%s" % (rel, name)] = round(1.0 - len([l for l in st if l in missing]) / len(st), 3)
+    return res
+
+
 def changed(repo=None):
     """names (file::Class.method) whose fingerprint differs from the baseline, appeared or disappeared"""
     if not os.path.exists(BASELINE):
